@@ -143,8 +143,9 @@ impl Val for usize {
     fn dg(&self) -> u64 {
         mix(8, *self as u64)
     }
-    fn stamp(self, _ev: u32) -> Self {
-        self
+    fn stamp(self, ev: u32) -> Self {
+        // small, so that a stamped count / index stays a plausible count / index
+        self.wrapping_add(1 + (ev as usize % 7))
     }
 }
 impl Val for bool {
